@@ -91,6 +91,17 @@ type PolicySpec struct {
 type CrashSpec struct {
 	AtWrite   int   `json:"at"`      // crash immediately before applying the n-th durable write of the incarnation (1-based)
 	RestartMs int64 `json:"restart"` // simulated time between death and restart
+	// AgeNs, when set, overrides RestartMs: the restart happens at the instant at
+	// which the age (now - newest Start/End timestamp) of the first plan that is
+	// durably Running equals the next incarnation's MaxLastUpdate + *AgeNs.
+	AgeNs *int64 `json:"ageNs,omitempty"`
+}
+
+// ExpectSpec is the outcome of the uninterrupted execution of a plan (filled in
+// by the crash engine's driver from the baseline run; used by C10.r4).
+type ExpectSpec struct {
+	Status int `json:"status"`
+	Reason int `json:"reason"`
 }
 
 // IncSpec configures one incarnation (one coercion.New).
@@ -101,18 +112,22 @@ type IncSpec struct {
 }
 
 type RunSpec struct {
-	Engine    string      `json:"engine"`
-	Seed      uint64      `json:"seed"`      // the run seed everything below was generated from (informational)
-	SchedSeed uint64      `json:"schedSeed"` // seeds scheduler choices
-	Profile   string      `json:"profile,omitempty"`
-	Plans     []PlanSpec  `json:"plans"`
+	Engine    string       `json:"engine"`
+	Seed      uint64       `json:"seed"`      // the run seed everything below was generated from (informational)
+	SchedSeed uint64       `json:"schedSeed"` // seeds scheduler choices
+	Profile   string       `json:"profile,omitempty"`
+	Plans     []PlanSpec   `json:"plans"`
 	Clients   [][]ClientOp `json:"clients"`
-	Policy    PolicySpec  `json:"policy"`
-	Crashes   []CrashSpec `json:"crashes,omitempty"`
-	Incs      []IncSpec   `json:"incs,omitempty"` // per incarnation; missing = defaults
-	GraceMs   int64       `json:"grace,omitempty"`
+	Policy    PolicySpec   `json:"policy"`
+	Crashes   []CrashSpec  `json:"crashes,omitempty"`
+	Incs      []IncSpec    `json:"incs,omitempty"` // per incarnation; missing = defaults
+	GraceMs   int64        `json:"grace,omitempty"`
 	// Decisions, when non-nil, forces the scheduler's choices (replay).
 	Decisions []int `json:"decisions,omitempty"`
+	// Expect, per plan: outcome of the uninterrupted run (crash engine, constant scripts only).
+	Expect []ExpectSpec `json:"expect,omitempty"`
+	// Consts: every plugin outcome is a function of the action alone.
+	Consts bool `json:"consts,omitempty"`
 	// FailWrite makes the n-th durable write return an error (E5, child process only).
 	FailWrite int `json:"failWrite,omitempty"`
 }
@@ -172,9 +187,9 @@ func (o *Obj) Scope() string {
 
 // Layout lists all objects of a plan in walk (execution) order.
 type Layout struct {
-	Plan  int
-	Spec  *PlanSpec
-	Objs  []*Obj
+	Plan   int
+	Spec   *PlanSpec
+	Objs   []*Obj
 	ByPath map[string]*Obj
 }
 
